@@ -387,6 +387,7 @@ mod cd {
                     s if s.starts_with("err") || s == "panic" => return s,
                     s => unhex(&s),
                 };
+                let content_hex = hex(&data);
                 let r = with_timeout(move || {
                     let c = match CertificationElements::decode(&data) {
                         Ok(c) => c,
@@ -411,7 +412,8 @@ mod cd {
                     }
                 });
                 tally("cd_validate", &r);
-                r
+                // the TLV content the fields were written to, then the answer
+                format!("{} {}", content_hex, r)
             }
             _ => "badop".into(),
         }
@@ -697,7 +699,13 @@ mod csr {
                     Ok(()) => "ok".to_string(),
                     Err(e) => format!("{:?}", e.code()),
                 };
-                format!("ok pk={} verify={}", pk, v)
+                // signature placement: the signed range and the raw signature `verify` works on (hooks)
+                let tbs = at(&data, c.verif_tbs());
+                let sig = match c.verif_signature() {
+                    Ok(s) => hex(&s),
+                    Err(e) => format!("!{:?}", e.code()),
+                };
+                format!("ok pk={} tbs={} sig={} verify={}", pk, tbs, sig, v)
             }
             Err(e) => errname(&e),
         });
